@@ -639,35 +639,77 @@ func ruleEverySessionIDGetsAJar(c *Ctx, p *Prog, rule string) {
 			}
 		}
 	}
-	for _, f := range scope {
+	// branches of a function that depend on what its ID parameter looks like (not merely on whether
+	// the cache has it, and not on whether some step failed)
+	var inspect func(f *ssa.Function, id ssa.Value, depth int)
+	var dependsOnID func(v, id ssa.Value, depth int) bool
+	seenFn := map[*ssa.Function]bool{}
+	dependsOnID = func(v, id ssa.Value, depth int) bool {
+		hit := false
+		SliceBack(v, func(x ssa.Value) bool {
+			if hit {
+				return false
+			}
+			if cl, ok := x.(*ssa.Call); ok {
+				name := CalleeName(&cl.Call)
+				if strings.HasSuffix(name, ".Get") || strings.HasSuffix(name, ".Peek") || strings.HasSuffix(name, ".Contains") {
+					return false // the cache lookup by that ID
+				}
+				if strings.HasPrefix(name, "fmt.") || strings.HasPrefix(name, "errors.") || strings.HasPrefix(name, "log.") {
+					return false // the ID quoted in a message
+				}
+				if callee := cl.Call.StaticCallee(); callee != nil && p.IsModFunc(callee) && len(callee.Blocks) > 0 && depth < 3 {
+					for k, a := range cl.Call.Args {
+						if !(a == id || sameRoot(a, id)) || k >= len(callee.Params) {
+							continue
+						}
+						inspect(callee, callee.Params[k], depth+1)
+						for _, ret := range Returns(callee) {
+							for _, rv := range ret.Results {
+								if types.Implements(rv.Type(), errorIface()) {
+									continue
+								}
+								if dependsOnID(rv, callee.Params[k], depth+1) {
+									hit = true
+								}
+							}
+						}
+					}
+					return false
+				}
+			}
+			if mi, ok := x.(*ssa.MakeInterface); ok && types.Implements(mi.X.Type(), errorIface()) {
+				return false
+			}
+			if x == id {
+				hit = true
+				return false
+			}
+			return true
+		})
+		return hit
+	}
+	inspect = func(f *ssa.Function, id ssa.Value, depth int) {
+		if seenFn[f] || depth > 3 {
+			return
+		}
+		seenFn[f] = true
 		for _, b := range f.Blocks {
 			ifi := BlockIf(b)
 			if ifi == nil {
 				continue
 			}
 			n++
-			SliceBack(ifi.Cond, func(v ssa.Value) bool {
-				if cl, ok := v.(*ssa.Call); ok {
-					name := CalleeName(&cl.Call)
-					if strings.HasSuffix(name, ".Get") || strings.HasSuffix(name, ".Peek") || strings.HasSuffix(name, ".Contains") {
-						return false // the cache lookup by that ID
-					}
-					if callee := cl.Call.StaticCallee(); callee != nil && p.IsModFunc(callee) {
-						for _, a := range cl.Call.Args {
-							if sameRoot(a, id) {
-								bad = "the branch at " + p.Pos(ifi.Pos()) + " tests " + FuncName(callee) + "(session ID)"
-							}
-						}
-					}
-				}
-				if v == ssa.Value(id) {
-					bad = "the branch at " + p.Pos(ifi.Pos()) + " tests the session ID itself"
-					return false
-				}
-				return true
-			})
+			if _, _, isErrTest := ErrNilTest(ifi); isErrTest {
+				continue // "did a step fail": the steps are judged by their own branches
+			}
+			if dependsOnID(ifi.Cond, id, depth) {
+				bad = "the branch at " + p.Pos(ifi.Pos()) + " in " + FuncName(f) + " depends on what the session ID looks like"
+			}
 		}
 	}
+	_ = scope
+	inspect(fn, id, 0)
 	c.Check(rule, "jar:every-session-id-gets-a-jar", p, fn.Pos(), bad == "", fmt.Sprintf("no branch of cachedCookieJar depends on what the session ID looks like (%d branch(es)): only on whether the cache has it", n), bad+": a session cookie issued by the previous build (valid for 12 hours, never re-issued) no longer gets a jar — WriteHeader only logs that error and then stores the backend's cookies into a nil jar: a panic in a worker goroutine nothing recovers, which ends the agent for every user")
 }
 
@@ -1218,4 +1260,8 @@ func ruleReaderEndsOnEveryReadError(c *Ctx, p *Prog, rule string) {
 	if n == 0 {
 		c.Unk(rule, "reader:every-read-error-ends-the-reader", p, nc.Pos(), "no read of the backend websocket inside a loop found in NewConnection")
 	}
+}
+
+func errorIface() *types.Interface {
+	return types.Universe.Lookup("error").Type().Underlying().(*types.Interface)
 }
